@@ -319,15 +319,19 @@ fn enumerate_derived_candidates(
                             }
                         }
                         if matches_pattern {
-                            let mut new_binds = Bindings::new();
-                            for (i, bt) in bound_terms.iter().enumerate() {
-                                if let BoundTerm::Unbound(var) = bt {
-                                    if let Some(val) = tuple.get(i) {
-                                        new_binds.insert(var.clone(), val.clone());
-                                    }
-                                }
-                            }
-                            candidates.push((tuple, new_binds));
+                            // Bind the pattern's free variables with the matcher used
+                            // for stored tuples: a variable that occurs twice in the
+                            // pattern (p(A, B, B)) must get one value, so a candidate
+                            // whose values at these positions differ is no match.
+                            let candidate = std::collections::HashMap::from([(
+                                relation.to_string(),
+                                vec![tuple],
+                            )]);
+                            candidates.extend(find_matching_tuples(
+                                relation,
+                                bound_terms,
+                                &candidate,
+                            ));
                         }
                     }
                 }
